@@ -587,6 +587,29 @@ pub fn execute(prog: &FesProgram, prop: &str) -> RunInfo {
                 }
             }
         }
+        "full" => {
+            // the node of Edge<page - 44> is exactly as large as a page
+            let mut p = prog.clone();
+            let page = if prog.page_size == 0 { 4096 } else { prog.page_size.next_power_of_two().clamp(512, 16384) };
+            match page {
+                512 => {
+                    p.page_size = 512;
+                    exec_typed_opt::<Edge<468>>(&p, prop, true)
+                }
+                1024 => {
+                    p.page_size = 1024;
+                    exec_typed_opt::<Edge<980>>(&p, prop, true)
+                }
+                2048 | 4096 => {
+                    p.page_size = if prog.page_size == 0 { 0 } else { 4096 };
+                    exec_typed_opt::<Edge<4052>>(&p, prop, true)
+                }
+                _ => {
+                    p.page_size = 16384;
+                    exec_typed_opt::<Edge<16340>>(&p, prop, true)
+                }
+            }
+        }
         _ => exec_typed::<u64>(prog, prop),
     }
 }
@@ -612,7 +635,7 @@ fn exec_typed_opt<P: Payload>(prog: &FesProgram, prop: &str, exact_page: bool) -
     let t = prog.t_ns.max(1);
     let mut page = prog.page_size;
     if exact_page {
-        info.probe("node_of_page_size_minus_8");
+        info.probe(if prog.payload == "full" { "node_of_exactly_page_size" } else { "node_of_page_size_minus_8" });
     }
     if page != 0 && !exact_page {
         page = page.next_power_of_two().clamp(256, 1 << 20);
@@ -1090,15 +1113,15 @@ fn run_ops<P: Payload>(prog: &FesProgram, prop: &str, n: usize, t: u64, page: us
         if P::ID_BITS == 64 {
             for id in 0..n_entries {
                 let d = drops_of(id as u64);
-                if d == 0 && destructor_panicked {
-                    // a panicking destructor may cost the payloads queued behind it in the same bucket (never corrupt or
-                    // double-drop them); everything in other buckets must still be dropped
-                    if victim_bucket == Some(bucket_index(times[id], n as u64, t)) {
-                        continue;
-                    }
-                }
                 if d == 0 {
-                    info.violate(Violation::new("C15", "payload-leak", format!("payload {id} ({:?}) was never dropped although the queue is gone", states[id])));
+                    // also after a payload destructor panicked while the queue was dropped: like the std collections, the
+                    // queue goes on releasing the remaining events (of the same bucket as well) while the panic unwinds
+                    let behind = destructor_panicked && victim_bucket == Some(bucket_index(times[id], n as u64, t));
+                    let what = if behind { " (it was queued behind a payload whose destructor panicked while the queue was dropped)" } else { "" };
+                    info.violate(
+                        Violation::new("C15", "payload-leak", format!("payload {id} ({:?}) was never dropped although the queue is gone{what}", states[id]))
+                            .fact("behind_panicking_destructor", behind as i64),
+                    );
                     break;
                 }
                 if d > 1 {
@@ -1142,6 +1165,7 @@ pub fn generate(prop: &str, rng: &mut Rng, tier: Tier) -> FesProgram {
     let t_ns = *rng.pick(&TS);
 
     let payload: &str = match prop {
+        "C15" if rng.chance(1, 24) => "full",
         "C15" if rng.chance(1, 12) => "edge",
         "C15" => PAYLOADS[rng.usize(PAYLOADS.len())],
         _ => {
